@@ -286,7 +286,7 @@ fn run_session(ops_a: &[Op], ops_b: &[Op], live: bool, live_op: &Op, script: Opt
 }
 
 fn run_enumeration() {
-    let world = LogWorld::generate(&WorldParams { max_authors: 2, max_logs_per_author: 1, max_ops_per_log: 3, prune_num: 0, body_kinds: 2 });
+    let world = LogWorld::generate(&WorldParams { max_authors: 2, max_logs_per_author: 1, max_ops_per_log: 3, prune_num: 0, body_kinds: 2, min_ops_per_log: 0 });
     let va = draw_view(&world, true);
     let vb = draw_view(&world, true);
     let ops_a = view_ops(&world, &va);
